@@ -7,9 +7,9 @@ Require Import MS.Model.Ticks MS.Model.TicksPF MS.Proofs.Ticks_sweep
 Local Open Scope Z_scope.
 
 Theorem sweep_blocks o : (exists lo, In lo block_starts /\ lo <= o < lo + block) ->
-  guard_1sec_pf o = true -> dec_offset_pf 86400 (enc_pf 86400 o) = o.
+  dec_offset_pf 86400 (enc_pf 86400 o) = o.
 Proof.
-  intros (lo & Hin & Ho) G. apply rt_ok_spec; [ | exact G ].
+  intros (lo & Hin & Ho). apply rt_ok_spec.
   assert (B : Z.of_nat (Z.to_nat block) = block) by (apply Z2Nat.id; unfold block; lia).
   unfold block_starts in Hin. cbn [In] in Hin.
   destruct Hin as [<- | [<- | [<- | [<- | [<- | [<- | [<- | [<- | []]]]]]]]].
@@ -33,15 +33,14 @@ Proof.
 Qed.
 
 Theorem sweep_blocks_flocq o : (exists lo, In lo block_starts /\ lo <= o < lo + block) ->
-  guard_C10 86400 o = true -> dec_offset 86400 (enc 86400 o) = o.
+  dec_offset 86400 (enc 86400 o) = o.
 Proof.
-  intros Hb G.
+  intros Hb.
   assert (Ho : 0 <= o < 9223372036854775808).
   { destruct Hb as (lo & Hin & Hr). unfold block_starts, block in *. cbn [In] in Hin.
     repeat (destruct Hin as [<- | Hin]; [ lia | ]). contradiction. }
   assert (S : Ticks_equiv.small 86400) by (unfold Ticks_equiv.small; lia).
   pose proof (enc_pf_eq 86400 o S Ho) as E.
-  pose proof (sweep_blocks o Hb) as P. unfold guard_1sec_pf in P. rewrite E in P.
-  rewrite (dec_offset_pf_eq 86400 (enc 86400 o) S (enc_small _ _)) in P.
-  apply P. exact G.
+  pose proof (sweep_blocks o Hb) as P. rewrite E in P.
+  rewrite (dec_offset_pf_eq 86400 (enc 86400 o) S (enc_small _ _)) in P. exact P.
 Qed.
